@@ -21,6 +21,16 @@ from .symval import (Ptr, PInt, FuncPtr, XInf, XR, Unsupported, is_sym, mask, to
 from .ir2c import NORETURN_NAMES, NORETURN_PREFIX, LIBM1, LIBM2, scan_attrs
 
 
+class RealBits:
+    """real mode: the (unknown) bit pattern of a real-valued double/float that is only being MOVED through an integer register (clang copies
+    small structs with i64 loads/stores).  Storing it gives back the real value; any other use is unsupported."""
+    __slots__ = ('v', 'n')
+
+    def __init__(self, v, n):
+        self.v = v
+        self.n = n
+
+
 class PathEnd(Exception):
     pass
 
@@ -247,6 +257,10 @@ class SymExec:
             raise Unsupported('store to constant global')
         n = self.L.size(t)
         kind = {'int': 'i', 'float': 'f', 'ptr': 'p'}[t.kind]
+        if isinstance(val, RealBits):
+            if val.n != n:
+                raise Unsupported('partial store of a moved floating-point value')
+            val, kind = val.v, 'f'
         off = ptr.off
         if is_sym(off):
             cands = self.candidates(o, off, n, kind)
@@ -407,6 +421,8 @@ class SymExec:
             return rlit(d)
         if self.mode == 'real' and want == 'i' and ck == 'f' and isinstance(cv, Fraction) and cv == 0:
             return 0
+        if self.mode == 'real' and want == 'i' and ck == 'f' and t.bits == cn * 8:
+            return RealBits(cv, cn)
         if self.mode != 'real' and want == 'i' and ck == 'f':
             return self.fp_to_bits(cv, cn * 8)
         if self.mode != 'real' and want == 'f' and ck == 'i':
